@@ -27,6 +27,12 @@ import (
 	mocksigner "github.com/attestantio/vouch/services/signer/mock"
 	mocksyncaggregator "github.com/attestantio/vouch/services/synccommitteeaggregator/mock"
 	standardmessenger "github.com/attestantio/vouch/services/synccommitteemessenger/standard"
+	walletaccountmanager "github.com/attestantio/vouch/services/accountmanager/wallet"
+	e2types "github.com/wealdtech/go-eth2-types/v2"
+	keystorev4 "github.com/wealdtech/go-eth2-wallet-encryptor-keystorev4"
+	nd "github.com/wealdtech/go-eth2-wallet-nd/v2"
+	filesystem "github.com/wealdtech/go-eth2-wallet-store-filesystem"
+	e2wtypes "github.com/wealdtech/go-eth2-wallet-types/v2"
 	"github.com/rs/zerolog"
 
 	. "verifharness/common"
@@ -130,6 +136,69 @@ func init() {
 			func(i int) { _, _ = svc.ExecutionChainHead(ctx) },
 		)
 		clean.Func(ctx)
+		wg.Wait()
+	}}
+
+	scenarios["wallet-accounts"] = scenario{"accountmanager_wallet", func(t *testing.T) {
+		ctx := context.Background()
+		if err := e2types.InitBLS(); err != nil {
+			t.Fatalf("bls: %v", err)
+		}
+		dir := t.TempDir()
+		store := filesystem.New(filesystem.WithLocation(dir))
+		// light key derivation: the scenario unlocks the accounts on every refresh
+		enc := keystorev4.New(keystorev4.WithCipher("pbkdf2"), keystorev4.WithCost(t, 10))
+		w, err := nd.CreateWallet(ctx, "W", store, enc)
+		if err != nil {
+			t.Fatalf("create wallet: %v", err)
+		}
+		if err := w.(e2wtypes.WalletLocker).Unlock(ctx, nil); err != nil {
+			t.Fatalf("unlock wallet: %v", err)
+		}
+		for i := 0; i < 2; i++ {
+			if _, err := w.(e2wtypes.WalletAccountCreator).CreateAccount(ctx, fmt.Sprintf("a%d", i), []byte("pass")); err != nil {
+				t.Fatalf("create account: %v", err)
+			}
+		}
+		svc, err := walletaccountmanager.New(ctx,
+			walletaccountmanager.WithLogLevel(zerolog.Disabled),
+			walletaccountmanager.WithMonitor(nullmetrics.New()),
+			walletaccountmanager.WithProcessConcurrency(2),
+			walletaccountmanager.WithLocations([]string{dir}),
+			walletaccountmanager.WithAccountPaths([]string{"W"}),
+			walletaccountmanager.WithPassphrases([][]byte{[]byte("pass")}),
+			walletaccountmanager.WithValidatorsManager(mock.NewValidatorsManager()),
+			walletaccountmanager.WithSpecProvider(mock.NewSpecProvider()),
+			walletaccountmanager.WithFarFutureEpochProvider(mock.NewFarFutureEpochProvider(0xffffffffffffffff)),
+			walletaccountmanager.WithDomainProvider(mock.NewDomainProvider()),
+			walletaccountmanager.WithCurrentEpochProvider(mocks.NewChainTime(32)),
+		)
+		if err != nil {
+			t.Fatalf("wallet account manager constructor: %v", err)
+		}
+		stop := make(chan struct{})
+		var wg sync.WaitGroup
+		for r := 0; r < 3; r++ {
+			wg.Add(1)
+			go func() {
+				defer wg.Done()
+				for {
+					select {
+					case <-stop:
+						return
+					default:
+					}
+					_, _ = svc.ValidatingAccountsForEpoch(ctx, 5)
+					_, _ = svc.ValidatingAccountsForEpochByIndex(ctx, 5, []phase0.ValidatorIndex{1, 2})
+					_, _ = svc.SyncCommitteeAccountsForEpoch(ctx, 5)
+					_, _ = svc.AccountByPublicKey(ctx, phase0.BLSPubKey{1})
+				}
+			}()
+		}
+		for i := 0; i < 4; i++ {
+			svc.Refresh(ctx)
+		}
+		close(stop)
 		wg.Wait()
 	}}
 
